@@ -168,7 +168,7 @@ def run_script(sc, max_loops=60000):
     a = net.add_stack(10, use_iocb=sc.get("iocb", False), **sc.get("a", {}))
     peers = {}
     for devid in sc["peers"]:
-        st = net.add_stack(devid, max_apdu=128)
+        st = net.add_stack(devid, max_apdu=128, net_number=sc.get("a", {}).get("net_number"))
         st.server_mode = "silent" if devid in sc.get("silent", []) else ("slow-echo" if devid in sc.get("slow", []) else "echo")
         st.response_payload = pattern(12, devid)
         peers[devid] = st
@@ -182,7 +182,12 @@ def run_script(sc, max_loops=60000):
         serial[0] += 1
         sent.append((devid, net.vt.now - t0))
         cannot_segment = sc.get("a", {}).get("seg", "segmentedBoth") not in ("segmentedBoth", "segmentedTransmit")
-        expect.append((devid, "abort" if (devid in sc.get("silent", []) or (big and cannot_segment)) else "ack"))
+        # a destination written WITH the local network number ("1:30" on network 1) is sent to the station, but
+        # the unchanged tree never matches the answer (its source is written "30") to the transaction: such a
+        # request ends in an abort after the retries — one outcome, in bounded time, nothing left, which is all
+        # C04 asks; only the KIND of outcome is not prescribed for these
+        spelled = sc.get("a", {}).get("spell", "plain") != "plain" and sc.get("a", {}).get("net_number") is not None
+        expect.append((devid, "abort" if (spelled or devid in sc.get("silent", []) or (big and cannot_segment)) else "ack"))
         body = pattern(400 if big else 8, devid) + bytes([serial[0] & 255, serial[0] >> 8])
         a.send_cpt(peers[devid], body)
     chain = list(sc.get("chain", []))      # requests issued from inside IOCB completion callbacks, in order
@@ -222,7 +227,11 @@ def run_script(sc, max_loops=60000):
             "iocb": [{k: v for k, v in e.items() if k != "iocb"} for e in a.iocb_events],
             "acks": [(c[3], c[4]) for c in a.confirmations if c[1] == "ack"],
             "expect": expect,
-            "bound": (a.device.numberOfApduRetries + 1) * a.device.apduTimeout / 1000.0 + 0.5 + (1.0 if sc.get("slow") else 0.0)}
+            # (unmatched answers of a destination written with the network number: a segmented request is
+            # then ended by the segment timer ladder, one more T_seg per retry on top of the request timer)
+            "bound": (a.device.numberOfApduRetries + 1) * a.device.apduTimeout / 1000.0 + 0.5 + (1.0 if sc.get("slow") else 0.0)
+                     + ((a.device.numberOfApduRetries + 1) * 4 * a.device.apduSegmentTimeout / 1000.0
+                        if a.spell != "plain" and a.net_number is not None else 0.0)}
 
 
 def check_script(sc, res):
@@ -234,7 +243,7 @@ def check_script(sc, res):
         per_peer_sent.setdefault(str(devid), []).append(t)
     per_peer_conf = {}
     for t, kind, inv, src in res["conf"]:
-        per_peer_conf.setdefault(str(src), []).append((t, kind))
+        per_peer_conf.setdefault(str(src).split(":")[-1], []).append((t, kind))
     for devid, times in per_peer_sent.items():
         got = per_peer_conf.get(devid, [])
         if len(got) != len(times) - 0:
@@ -253,7 +262,7 @@ def check_script(sc, res):
     # after silence is the right outcome only for a silent peer or a request the client cannot send)
     import collections
     want = collections.Counter(res.get("expect", []))
-    got_k = collections.Counter((str(src), kind) for _t, kind, _inv, src in res["conf"])
+    got_k = collections.Counter((str(src).split(":")[-1], kind) for _t, kind, _inv, src in res["conf"])
     for (devid, kind), n_ in want.items():
         if got_k.get((str(devid), kind), 0) < n_:
             out.append(("wrong-outcome", "%d request(s) to %s should end in %s; outcomes from that peer: %r" % (
